@@ -207,6 +207,23 @@ def _blackbox(case, ctx):
         else:
             ctx.check("score", abs(float(sc) - float(np.mean(pred == np.asarray(yte)))) < 1e-12, "score:%s:not-fraction-of-matches" % name, "score is not the fraction of predictions that match",
                       score=float(sc), expected=float(np.mean(pred == np.asarray(yte))))
+        if not tie:
+            # ... for any vector of true labels: every second true label is a near miss of the prediction (a string that merely starts
+            # with the predicted label / the next integer), so the expected score is the share of the others
+            sample = pred.tolist()[0]
+            if isinstance(sample, str):
+                y_adv = [p if i % 2 else p + "0" for i, p in enumerate(pred.tolist())]
+            elif isinstance(sample, (int, np.integer)) and not isinstance(sample, (bool, np.bool_)):
+                y_adv = [p if i % 2 else p + 1 for i, p in enumerate(pred.tolist())]
+            else:
+                y_adv = None
+            if y_adv is not None:
+                want = float(np.mean([i % 2 == 1 for i in range(len(y_adv))]))
+                for form, yy in (("array", np.array(y_adv)), ("series", pd.Series(y_adv, index=range(5, 5 + len(y_adv))))):
+                    ok2, sc2 = ctx.call("score:exception:" + name, clf.score, Xte, yy)
+                    if ok2:
+                        ctx.check("score", abs(float(sc2) - want) < 1e-12, "score:%s:not-fraction-of-matches" % name, "score is not the fraction of predictions that match (near-miss true labels)",
+                                  score=float(sc2), expected=want, y_form=form, example=[repr(v) for v in y_adv[:4]], predictions=[repr(v) for v in pred.tolist()[:4]])
     ctx.event(clf=name, labels=[str(v) for v in seen], proba_first=P[0].tolist(), pred_first=repr(pred[0]))
     ctx.tag("clf:" + name)
     if len(set(pred.tolist())) >= 2 or np.any((P > 1e-9) & (P < 1 - 1e-9)):
